@@ -89,6 +89,44 @@ def ensure_shapes_tla():
             open(dst, 'w').write(new)
     os.unlink(tmp)
 
+def build_suite():
+    """The repository's OWN test programs (test/compiling_tests*.cpp = self_test, test/thread_terror.cpp) compiled from /repo's
+    working tree with the guarded verification hooks and the event sink harness/suite/sink.cpp.  Cached by content hash."""
+    tdir = os.path.join(REPO, 'test')
+    tsrcs = [os.path.join(tdir, f) for f in sorted(os.listdir(tdir)) if f.endswith(('.cpp', '.hpp'))] if os.path.isdir(tdir) else []
+    sink = os.path.join(HARNESS, 'suite', 'sink.cpp')
+    h = tree_hash(tsrcs + [sink])
+    d = os.path.join(BUILD, 'suite-' + h)
+    with Lock(os.path.join(BUILD, 'suite.lock')):
+        if os.path.exists(os.path.join(d, 'ok')):
+            os.utime(d)
+            return d
+        t0 = time.time()
+        shutil.rmtree(d, ignore_errors=True)
+        os.makedirs(d)
+        common = ['-std=c++14', '-O0', '-w', '-DROLLBEAR_TROMPELOEIL_VERIF', '-I' + INCLUDE]
+        units = [f for f in ('compiling_tests.cpp', 'compiling_tests_11.cpp', 'compiling_tests_14.cpp') if os.path.exists(os.path.join(tdir, f))]
+        jobs = [(['g++'] + common + ['-DCATCH2_MAIN', '-DCATCH2_VERSION=2', '-c', os.path.join(tdir, f), '-o', f[:-4] + '.o'], d) for f in units]
+        jobs.append((['g++'] + common + ['-DVERIF_WITH_CATCH2', '-c', sink, '-o', 'sink_catch.o'], d))
+        if os.path.exists(os.path.join(tdir, 'thread_terror.cpp')):
+            jobs.append((['g++'] + common[:1] + ['-O1', '-w', '-pthread', '-DROLLBEAR_TROMPELOEIL_VERIF', '-I' + INCLUDE,
+                                                  os.path.join(tdir, 'thread_terror.cpp'), sink, '-o', 'thread_terror_g'], d))
+        res = compile_many(jobs)
+        for (rc, out), j in zip(res, jobs):
+            if rc != 0:
+                raise BuildError('suite build failed: %s\n%s' % (' '.join(j[0][-4:]), out[-3000:]))
+        if units:
+            p = subprocess.run(['g++'] + [f[:-4] + '.o' for f in units] + ['sink_catch.o', '/usr/lib/libCatch2WithMain.a', '-o', 'self_test_g'],
+                               cwd=d, stdout=subprocess.PIPE, stderr=subprocess.STDOUT, text=True)
+            if p.returncode != 0:
+                raise BuildError('suite link failed:\n' + p.stdout[-3000:])
+            for f in units:
+                os.unlink(os.path.join(d, f[:-4] + '.o'))
+        open(os.path.join(d, 'ok'), 'w').write('ok')
+        log('built the repository\'s test programs with hooks in %.0fs' % (time.time() - t0))
+    prune_builds('suite')
+    return d
+
 def build_seq():
     """sequential driver, ASan+UBSan+sanity checks, from /repo's working tree.  Cached by content hash."""
     ensure_shapes_tla()
